@@ -420,12 +420,34 @@ def _delivered_ids(args, kw):
     return ids
 
 
-def object_attr_witness(e, args, kw):
+def _entry_conforms(f, args, kw):
+    """Every list / tuple the caller handed to the entry function went to a parameter annotated as one."""
+    import inspect
+    try:
+        sig = inspect.signature(f)
+        ba = sig.bind(*args, **kw)
+    except (TypeError, ValueError):
+        return False
+    for name, v in ba.arguments.items():
+        if isinstance(v, (list, tuple)):
+            par = sig.parameters[name]
+            if par.kind in (par.VAR_POSITIONAL, par.VAR_KEYWORD):
+                return False
+            ann = par.annotation
+            ann = '' if ann is inspect.Parameter.empty else (ann if isinstance(ann, str) else getattr(ann, '__name__', '') + ' ' + str(ann))
+            if not re.search(r'list|tuple|sequence|iterable', ann, re.I):
+                return False
+    return True
+
+
+def object_attr_witness(e, args, kw, f=None):
     """AttributeError on an object the package built itself (not one the caller delivered, nor an element of
     one), raised by an attribute access written in package code: the package handed one of its own functions
     something that function cannot use - a code path failing with AttributeError whatever the caller does.
     Deliberately narrow: a missing attribute on anything the caller passed in is never reported (it may be the
-    caller's misuse), nor is one raised inside a dependency."""
+    caller's misuse), nor is one raised inside a dependency, nor anything at all when the caller handed a list or
+    tuple to a parameter of the entry function that is not annotated as one (what the package derives from such
+    an argument - a slice, a copy - is still the caller's choice of type)."""
     if not isinstance(e, AttributeError) or _MODATTR.search(str(e)):
         return False
     if getattr(e, 'name', None) is None:
@@ -440,7 +462,9 @@ def object_attr_witness(e, args, kw):
     obj = getattr(e, 'obj', None)
     if obj is None or isinstance(obj, (types.ModuleType, type)):
         return False
-    return id(obj) not in _delivered_ids(args, kw)
+    if id(obj) in _delivered_ids(args, kw):
+        return False
+    return f is not None and _entry_conforms(f, args, kw)
 
 
 def innermost_package_frame(e):
